@@ -254,7 +254,7 @@ def is_count_of(E, res, n, pred):
     """`res` IS the number of positions i in [0, n) with pred(i):  res is the value cnt_m(|m|) of the counting function
     of a mask m that np.count_nonzero was applied to (ghost log of the model), |m| = n, and m[i] <=> pred(i) pointwise"""
     for mask, r in ext_C10.counted(E):
-        if isinstance(res, Sym) and r.z.eq(res.z):
+        if isinstance(res, Sym) and (r.z.eq(res.z) or (res.kind == "real" and z3.ToReal(r.z).eq(res.z))):  # the count itself, or its cast to a float
             i = z3.Int(fresh_name("i"))
             return z3.And(mask.nz() == n, z3.ForAll([i], z3.Implies(z3.And(i >= 0, i < n), mask.get(i).z == pred(i))))
     return z3.BoolVal(False)
@@ -267,11 +267,12 @@ def rs_unchanged(E, v, o):
     return ok and isinstance(rm, Sym) and rm.z.eq(o["self"].fields["rmax"].z)
 
 
-def register_sholl(R):
-    def rs_pred(sh, r):
-        rs = sh.fields["rs"]
-        return lambda i: straddles(z3.Select(rs.cols[0], i), z3.Select(rs.cols[1], i), to_z3(r, "real"))
+def rs_pred(sh, r):
+    rs = sh.fields["rs"]
+    return lambda i: straddles(z3.Select(rs.cols[0], i), z3.Select(rs.cols[1], i), to_z3(r, "real"))
 
+
+def register_sholl(R):
     # ---------------------------------------------------------------- Sholl.intersect
     R.add(f"{SHOLL}:Sholl.intersect", prop="C10",
           setup=lambda S: dict(self=sholl_obj(S), r=S.real("r")),
@@ -918,10 +919,41 @@ def register_frontend(R, H):
     for nm in ("node_radial_distance", "furcation_count", "tip_count"):
         variants[f"{nm},tree-of-3-nodes"] = (lambda S, _nm=nm: dict(self=feats(S, H["fixed_tree"](S, 3)), feature=_nm))
     variants["unknown-name"] = lambda S: dict(self=feats(S, sym_tree(S, "t")), feature="no_such_feature")
+    variants["unknown-module"] = lambda S: dict(self=feats(S, sym_tree(S, "t")), feature="soma_count")
     variants["bifurcation_count"] = lambda S: dict(self=feats(S, sym_tree(S, "t")), feature="bifurcation_count")
+    # features that need the traversal: a few fixed topologies (the evaluators themselves are verified on all of them)
+    FRONT = [[-1, 0, 0, 1], [-1, 0, 1, 1], [-1, 2, 0], [-1, 0, 1, 2, 2, 3, 4]]
+    TRAVERSAL = ("branch_length", "branch_tortuosity", "path_length", "path_tortuosity", "node_branch_order", "furcation_radial_distance", "tip_radial_distance")
+    for nm in TRAVERSAL:
+        for p in FRONT:
+            variants[f"{nm},{pname(p)}"] = (lambda S, _nm=nm, _p=p: dict(self=feats(S, topo_tree(S, _p)), feature=_nm))
+    from pyvc.values import PDict as PDict_
+
+    def sholl_feats(S):
+        return S.obj(Features, tree=None, sholl=sholl_obj(S))
+
+    variants["sholl,steps=2-as-keyword-argument"] = lambda S: dict(self=sholl_feats(S), feature="sholl", kwargs=PDict_(dict(steps=2)))
+    variants["sholl,steps=2-in-a-name-and-arguments-pair"] = lambda S: dict(self=sholl_feats(S), feature=("sholl", PDict_(dict(steps=2))))
+    variants["sholl,pair-overridden-by-keyword-argument"] = lambda S: dict(self=sholl_feats(S), feature=("sholl", PDict_(dict(steps=3))), kwargs=PDict_(dict(steps=2)))
+
+    def view(o, cls=None, sub=False):
+        """the object a feature-class clause expects, for the tree held by the Features object"""
+        import types
+
+        t = o["self"].fields["tree"]
+        nf = types.SimpleNamespace(cls=None, fields=dict(tree=t))
+        return dict(self=types.SimpleNamespace(cls=cls, fields=dict(_features=nf)) if sub else nf)
 
     def get_post(E, v, o):
+        from swcgeom.analysis.features import FurcationFeatures, TipFeatures
+        from swcgeom.core.tree import Tree
+
         f, t = o["feature"], o["self"].fields["tree"]
+        if isinstance(f, tuple) or f == "sholl":
+            sh, res = o["self"].fields["sholl"], v["result"]
+            radii = [Sym(z3.RealVal(j + 1) * to_z3(sh.fields["rmax"], "real") / z3.RealVal(3), "real") for j in range(2)]
+            return (isinstance(res, NArr) and res.shape == (2,) and res.kind == "real"
+                    and z3.And(*[is_count_of(E, x, sh.fields["rs"].nz(), rs_pred(sh, r)) for x, r in zip(res.items, radii)]))
         if f == "node_count":
             return one_number(E, v, z3.ToReal(nof(t)))
         if f == "length":
@@ -933,14 +965,33 @@ def register_frontend(R, H):
         if f in ("furcation_count", "tip_count"):
             pred = H["is_furcation"] if f == "furcation_count" else H["is_tip"]
             return one_number(E, v, z3.ToReal(sum((z3.If(pred(t, i), 1, 0) for i in range(3)), z3.IntVal(0))))
+        # the traversal-backed features: the very clauses of the feature classes (see register_topology_features)
+        if f in ("branch_length", "branch_tortuosity"):
+            return H["multiset"](f.split("_")[1], Topo.branches, "_branches")(E, v, view(o))
+        if f in ("path_length", "path_tortuosity"):
+            return H["multiset"](f.split("_")[1], Topo.paths, "_paths")(E, v, view(o))
+        if f == "node_branch_order":
+            return H["bo_post"](E, v, view(o))
+        if f in ("furcation_radial_distance", "tip_radial_distance"):
+            return H["srd_post"](E, v, view(o, FurcationFeatures if f.startswith("furcation") else TipFeatures, sub=True))
         return False
 
-    R.add(f"{FEX}:Features.get", prop="C10", variants=variants,
-          raises={"ValueError": ("no-evaluator-of-that-name-or-root-not-typed-soma", lambda E, v, o: True if v["feature"] in ("no_such_feature", "bifurcation_count")
-                                 else (z3.Not(H["soma_typed"](v["self"].fields["tree"])) if v["feature"] == "node_radial_distance" else False))},
+    def get_raises(E, v, o):
+        f = v["feature"]
+        if f in ("no_such_feature", "soma_count", "bifurcation_count"):
+            return True
+        if f in ("node_radial_distance", "furcation_radial_distance", "tip_radial_distance"):
+            return z3.Not(H["soma_typed"](v["self"].fields["tree"]))
+        return False
+
+    R.add(f"{FEX}:Features.get", prop="C10", variants=variants, options=dict(inline_calls=INLINE),
+          raises={"ValueError": ("no-evaluator-of-that-name-or-root-not-typed-soma", get_raises)},
           ensures=[("the-number-of-the-named-feature", get_post)],
           notes="dispatch by name: node_count (symbolic tree), length (trees of 1-3 nodes), node_radial_distance / furcation_count / "
-                "tip_count (trees of 3 nodes), an unknown name and the deprecated bifurcation_count (no evaluator: ValueError)")
+                "tip_count (trees of 3 nodes), branch / path length and tortuosity, node_branch_order, furcation / tip radial distance (4 fixed "
+                "topologies of 3-7 nodes, same clauses as the feature classes), sholl with steps given as keyword argument or in a (name, arguments) pair "
+                "(warm Sholl cache), an unknown name, an unknown module prefix and the deprecated bifurcation_count (no evaluator: ValueError).  volume is NOT "
+                "covered here (get_volume is property C14)")
 
 
 # ===========================================================================
@@ -1625,3 +1676,106 @@ def register_extractors(R, H, PAD):
         R.add(f"{FEX}:{cls.__name__}.__init__", prop="C10", variants={k: init_setup(k) for k in kinds}, options=dict(inline_calls=INLINE + POP_INLINE),
               ensures=[("keeps-the-argument-and-one-fresh-evaluator-per-tree-in-order",
                         lambda E, v, o, _param=param: v["result"] is None and built(E, _same_but_fresh(v["self"], E), v[_param], v["__trees__"]))])
+
+    # ------------------------------------------------ Sholl through the front end (warm cache: the Sholl object exists)
+    def radii_of(steps, rmax):
+        """the radii a request stands for: the given array, or j*rmax/(steps+1), j = 1..steps"""
+        if isinstance(steps, NArr):
+            return list(steps.items)
+        return [Sym(z3.RealVal(j + 1) * to_z3(rmax, "real") / z3.RealVal(steps + 1), "real") for j in range(steps)]
+
+    def counts_are(E, items, sh, radii):
+        n = sh.fields["rs"].nz()
+        return z3.And(*[is_count_of(E, x, n, rs_pred(sh, r)) for x, r in zip(items, radii)]) if radii else True
+
+    def steps_variants(build):
+        out = {f"steps={k}": (lambda S, _k=k: build(S, dict(steps=_k))) for k in (1, 3)}
+        out["steps=array-of-2-radii"] = lambda S: build(S, dict(steps=NArr((2,), [S.real("step0"), S.real("step1")], "real")))
+        out["default-steps=20"] = lambda S: build(S, {})
+        return out
+
+    def sholl_vector_post(get_sh):
+        def f(E, v, o):
+            sh, res = get_sh(o), v["result"]
+            steps = dict(o["kwargs"].items).get("steps", 20)
+            radii = radii_of(steps, sh.fields["rmax"])
+            if not (isinstance(res, NArr) and res.shape == (len(radii),) and res.kind == "real" and res.root().uid not in E.entry_uids):
+                return False
+            return counts_are(E, res.items, sh, radii)
+
+        return f
+
+    def sholl_kept(get_sh):
+        return lambda E, v, o: rs_unchanged(E, dict(self=get_sh(v)), dict(self=get_sh(o)))
+
+    def warm_features(S, name="rs"):
+        return S.obj(Features, tree=None, sholl=sholl_obj(S, name))
+
+    R.add(f"{FEX}:Features.get_sholl", prop="C10",
+          variants=steps_variants(lambda S, kw: dict(self=warm_features(S), kwargs=PDict(kw))),
+          ensures=[("float-vector-of-one-straddle-count-per-radius-of-the-cached-sholl-object", sholl_vector_post(lambda o: o["self"].fields["sholl"])),
+                   ("cached-sholl-object-kept-unchanged", sholl_kept(lambda o: o["self"].fields["sholl"]))],
+          notes="warm cache (`sholl` is a cached_property: the Sholl object, which holds its own translated COPY of the tree, is built on first use and never "
+                "refreshed -- later edits of the tree are not seen); rs symbolic (m, 2), any m; steps 1, 3, default 20, or 2 symbolic radii")
+    R.add(f"{FEX}:TreeFeatureExtractor.get_sholl", prop="C10",
+          variants=steps_variants(lambda S, kw: dict(self=S.obj(TreeFeatureExtractor, _tree=None, _features=warm_features(S)), kwargs=PDict(kw))),
+          ensures=[("float-vector-of-one-straddle-count-per-radius-of-the-cached-sholl-object", sholl_vector_post(lambda o: o["self"].fields["_features"].fields["sholl"])),
+                   ("cached-sholl-object-kept-unchanged", sholl_kept(lambda o: o["self"].fields["_features"].fields["sholl"]))],
+          notes="as Features.get_sholl")
+
+    # ------------------------------------------------ PopulationFeatureExtractor._get_sholl_impl / get_sholl
+    def pop_sholl_setup(P, direct):
+        def build(S, kw):
+            fs = [warm_features(S, f"rs{p}_") for p in range(P)]
+            d = dict(self=S.obj(PopulationFeatureExtractor, _population=None, _features=PList(fs)), __fs__=fs)
+            d.update(kw if direct else dict(kwargs=PDict(kw)))  # _get_sholl_impl(steps=20, **kwargs) names the parameter, get_sholl(**kwargs) forwards it
+            return d
+
+        return build
+
+    def steps_of(o):
+        return o["steps"] if "steps" in o else dict(o["kwargs"].items).get("steps", 20)
+
+    def common_rmax(E, fs):
+        """the largest rmax of the population (a fresh ghost constant characterised as the maximum)"""
+        rms = [to_z3(f.fields["sholl"].fields["rmax"], "real") for f in fs]
+        m = rms[0]
+        for x in rms[1:]:
+            m = z3.If(x > m, x, m)
+        return m
+
+    def pop_sholl_rows(E, vals, o, radii):
+        fs = o["__fs__"]
+        if not (isinstance(vals, NArr) and vals.shape == (len(fs), len(radii)) and vals.root().uid not in E.entry_uids):
+            return False
+        k = len(radii)
+        return z3.And(*[counts_are(E, vals.items[p * k:(p + 1) * k], f.fields["sholl"], radii) for p, f in enumerate(fs)])
+
+    def pop_sholl_post(with_rs):
+        def f(E, v, o):
+            res = v["result"]
+            radii = radii_of(steps_of(o), Sym(common_rmax(E, o["__fs__"]), "real"))
+            if with_rs:
+                if not (isinstance(res, tuple) and len(res) == 2 and isinstance(res[1], NArr) and res[1].shape == (len(radii),)):
+                    return False
+                return z3.And(pop_sholl_rows(E, res[0], o, radii), *[to_z3(a, "real") == to_z3(b, "real") for a, b in zip(res[1].items, radii)])
+            return pop_sholl_rows(E, res, o, radii)
+
+        return f
+
+    def all_sholl_kept(E, v, o):
+        return all(rs_unchanged(E, dict(self=a.fields["sholl"]), dict(self=b.fields["sholl"])) for a, b in zip(v["__fs__"], o["__fs__"]))
+
+    def pv(direct):
+        out = {}
+        for P in (1, 2):
+            for k, fn in steps_variants(pop_sholl_setup(P, direct)).items():
+                if not (P == 2 and k == "default-steps=20"):
+                    out[f"population-of-{P}-trees,{k}"] = fn
+        return out
+
+    for nm, with_rs in (("_get_sholl_impl", True), ("get_sholl", False)):
+        R.add(f"{FEX}:PopulationFeatureExtractor.{nm}", prop="C10", variants=pv(with_rs),
+              ensures=[("one-row-of-straddle-counts-per-tree-at-common-radii-j-times-the-largest-rmax-over-steps-plus-1" + ("-and-those-radii" if with_rs else ""), pop_sholl_post(with_rs)),
+                       ("cached-sholl-objects-kept-unchanged", all_sholl_kept)],
+              notes="1-2 trees with warm Sholl caches (rs symbolic (m_p, 2), any m_p, rmax_p any real); steps 1, 3, default 20 (one tree), or 2 given radii")
